@@ -26,6 +26,9 @@ type Def struct {
 	idx  int
 	// axioms attached to a declared symbol: asserted in every query that uses it
 	axioms []string
+	// opaque definitions are emitted as declare-const + defining equation, so that the name
+	// stays an uninterpreted constant usable inside E-matching patterns
+	opaque string
 }
 
 // Axiom attaches a global fact to a declared symbol.
@@ -84,6 +87,11 @@ func (d *Defs) Define(prefix, sort, body string) string {
 	n := d.fresh(prefix)
 	df := &Def{Name: n, Sort: sort, Body: body, idx: len(d.list)}
 	df.deps = d.scanDeps(body)
+	if sort == "Slice" {
+		df.Body = ""
+		df.opaque = body
+		df.axioms = []string{"(= " + n + " " + body + ")"}
+	}
 	d.list = append(d.list, df)
 	d.byName[n] = df
 	return n
@@ -477,10 +485,16 @@ func splitTop(s string) []string {
 func (d *Defs) resolve(t string) string {
 	for i := 0; i < 8; i++ {
 		df, ok := d.byName[t]
-		if !ok || df.Body == "" {
+		if !ok {
 			return t
 		}
-		t = df.Body
+		if df.Body != "" {
+			t = df.Body
+		} else if df.opaque != "" {
+			t = df.opaque
+		} else {
+			return t
+		}
 	}
 	return t
 }
